@@ -12,6 +12,7 @@ import (
 
 	"github.com/gotd/td/bin"
 	"github.com/gotd/td/mt"
+	"github.com/gotd/td/mtproto"
 	"github.com/gotd/td/proto"
 	"github.com/gotd/td/verifharness/hx"
 	"github.com/gotd/td/verifharness/mtx"
@@ -176,7 +177,11 @@ func runConn(seed uint64, workers, opsPer int) connResult {
 		used = append(used, v)
 		return time.Unix(0, v)
 	}
-	env := mtx.NewEnv(r.Fork(), mtx.Config{MessageID: proto.NewMessageIDGen(now), Salt: 77})
+	env := mtx.NewEnv(r.Fork(), mtx.Config{MessageID: proto.NewMessageIDGen(now), Salt: 77, Options: func(o *mtproto.Options) {
+		// a request that never gets its result (e.g. because two requests share a msg_id) must not
+		// stall the run: short timeout for the rpc_drop_answer that a cancelled Invoke issues
+		o.RequestTimeout = func(uint32) time.Duration { return 100 * time.Millisecond }
+	}})
 	defer env.Close()
 	plans := make([][]bool, workers)
 	for w := range plans {
@@ -203,6 +208,13 @@ func runConn(seed uint64, workers, opsPer int) connResult {
 		fmu.Lock()
 		frames = append(frames, f)
 		fmu.Unlock()
+		if f.TypeID == mt.RPCDropAnswerRequestTypeID {
+			// a timed-out Invoke drops its request through another Invoke: answer it, or that one
+			// times out and is dropped in turn, without end
+			var pb bin.Buffer
+			_ = (&mt.RPCAnswerDropped{MsgID: f.MsgID}).Encode(&pb)
+			_ = env.Reply(&proto.Result{RequestMessageID: f.MsgID, Result: pb.Copy()})
+		}
 		if f.TypeID == contentType {
 			var pb bin.Buffer
 			_ = (&mt.RPCAnswerUnknown{}).Encode(&pb) // not a pong: handleResult routes pongs to the ping map
@@ -239,7 +251,13 @@ func runConn(seed uint64, workers, opsPer int) connResult {
 		go func(plan []bool) {
 			defer wg.Done()
 			for _, content := range plan {
-				ctx, cancel := context.WithTimeout(env.Ctx, 20*time.Second)
+				emu.Lock()
+				failed := werr != ""
+				emu.Unlock()
+				if failed {
+					return
+				}
+				ctx, cancel := context.WithTimeout(env.Ctx, 3*time.Second)
 				var err error
 				if content {
 					var out mt.RPCAnswerUnknown
@@ -268,7 +286,7 @@ func runConn(seed uint64, workers, opsPer int) connResult {
 	sort.SliceStable(frames, func(i, j int) bool { return frames[i].MsgID < frames[j].MsgID })
 	for _, f := range frames {
 		res.IDs = append(res.IDs, f.MsgID)
-		res.Kinds = append(res.Kinds, f.TypeID == contentType)
+		res.Kinds = append(res.Kinds, f.TypeID == contentType || f.TypeID == mt.RPCDropAnswerRequestTypeID)
 		res.Seqs = append(res.Seqs, int64(f.SeqNo))
 	}
 	if res.Err == "" && len(frames) != total {
@@ -307,6 +325,12 @@ func main() {
 		res := runConn(seed, workers, ops)
 		rp := map[string]interface{}{"conn_seed": seed, "workers": workers, "ops": ops}
 		if res.Err != "" {
+			for i := 1; i < len(res.IDs); i++ {
+				if res.IDs[i] == res.IDs[i-1] {
+					c.Violate("dup-id", fmt.Sprintf("Conn wrote two messages with msg_id %d (then: %s)", res.IDs[i], res.Err), -1, 0, rp)
+					return
+				}
+			}
 			c.Violate("conn-run-failed", "Conn: "+res.Err, -1, 0, rp)
 			return
 		}
